@@ -115,7 +115,7 @@ pub fn prop(tier: Tier, seed: u64) -> Prop {
     // ---- (b) direct 1-D, both orientations
     let n: u32 = tier.pick(12, 32);
     let algs: Vec<Alg> = NONNEG.iter().flat_map(|f| [Alg::Conv(*f), Alg::Interp(*f)]).collect();
-    let dims2 = vec![n as u64, n as u64, 5, algs.len() as u64];
+    let dims2 = vec![n as u64, n as u64, 6, algs.len() as u64];
     let (d2, a2, b2) = (dims2.clone(), algs.clone(), bes.clone());
     p.spaces.push(Space::new("direct 1-D: n_in x n_out x crop x 4 non-negative filters x {Conv,Interp}: range and ordered pairs (13 types x back-ends x 2 orientations)", product(&dims2), move |idx, ctx| {
         let mut d = [0usize; 4];
